@@ -265,18 +265,40 @@ def observe_nl(p, pd, req, kw):
 def observe_load(p, pd, req, kw):
     q = req["q"]
     flt = lambda fs: [[float(fr(v)) for v in f] for f in fs]
-    p.forces = flt(req["forces"])
-    p.forces_inc = flt(req["forcesInc"])
+    route = req.get("route", 0)
+    if route % 2 == 0:
+        p.forces = flt(req["forces"])
+        p.forces_inc = flt(req["forcesInc"])
+    else:                                  # through the public add_force API
+        for f in flt(req["forces"]):
+            p.add_force(*f, cte=True)
+        for f in flt(req["forcesInc"]):
+            p.add_force(*f, cte=False)
     inc = float(fr(req["inc"]))
     if q == "fext":
         k2 = {}
         if kw:
             k2 = dict(size=kw["size"], col0=kw["col0"])
         f = p.calc_fext(inc=inc, silent=True, **k2)
-        return [[dyadic(v)] for v in np.asarray(f, dtype=float).ravel()], True
-    # linear static analysis (all forces at full load: the linear analysis uses inc = 1)
-    cs = p.static(silent=True)
-    incs = p.increments
+        f2 = p.calc_fext(inc=inc, silent=True, **k2)          # asking twice gives the same vector
+        return [[dyadic(v)] for v in np.asarray(f, dtype=float).ravel()], bool(np.array_equal(f, f2))
+    # linear static analysis (all forces at full load: the linear analysis uses inc = 1), three public routes
+    if route in (0, 1):
+        cs = p.static(silent=True)
+        incs = p.increments
+    elif route in (2, 3):
+        from compmech.analysis import static
+        K = p.calc_k0(silent=True)
+        f = p.calc_fext(silent=True)
+        K0 = K.copy()
+        f0 = np.array(f, copy=True)
+        incs, cs = static(K, f, silent=True)
+        if not (np.array_equal(f, f0) and (K != K0).nnz == 0):      # matrices handed to the solver are not modified
+            return [[dyadic(v)] for v in np.asarray(cs[0], dtype=float).ravel()], False
+    else:
+        from compmech.analysis import Analysis
+        an = Analysis(calc_fext=p.calc_fext, calc_k0=p.calc_k0, calc_fint=p.calc_fint, calc_kT=p.calc_kT)
+        incs, cs = an.static(NLgeom=False, silent=True)
     c = np.asarray(cs[0], dtype=float).ravel()
     ok = (len(cs) == 1 and list(incs) == [1.0])
     return [[dyadic(v)] for v in c], bool(ok)
@@ -285,7 +307,7 @@ def observe_load(p, pd, req, kw):
 def jreq(r):
     out = dict(q=r["q"], size=r.get("size", 0), row0=r.get("row0", 0), col0=r.get("col0", 0))
     for k in ("N", "flow", "beta", "gamma", "aeromu", "c", "pts", "NL", "forces", "forcesInc", "inc", "cores", "num", "extra", "table",
-              "mach", "root", "rho", "V", "ainf", "via", "k0first", "taper"):
+              "mach", "root", "rho", "V", "ainf", "via", "k0first", "taper", "route"):
         if k in r:
             out[k] = r[k]
     return out
@@ -401,6 +423,7 @@ def random_req(rng, pd, q):
         r["forces"] = forces(rng.randint(0, 3))
         r["forcesInc"] = forces(rng.randint(0 if r["forces"] else 1, 3))
         r["inc"] = rat(Fraction(rng.randint(1, 16), 8)) if q == "fext" else rat(1)
+        r["route"] = rng.randint(0, 5)
         if q == "fext" and rng.random() < 0.3:
             off = rng.randint(1, 9)
             r.update(size=size + off + rng.randint(0, 5), row0=off, col0=off)
@@ -454,7 +477,8 @@ def run_prop(prop, qs, tier, seed, build, nrand_quick=40, nrand_thorough=600, wh
     if set(qs) & {"kA", "cA", "kAmach"}:   # the lattice aerodynamic cases also through a stiffener-less bay
         pairs += [(pd, dict(r, via="bay", k0first=(k % 2 == 0))) for k, (pd, r) in enumerate(pairs) if pd["model"] != "plate_w"]
     if "static" in qs:   # the lattice load cases are also solved
-        pairs += [(pd, dict(r, q="static", inc=rat(1))) for pd, r in pairs if r["q"] == "fext" and fr(r["inc"]) == 1]
+        pairs += [(pd, dict(r, q="static", inc=rat(1), route=k % 6)) for k, (pd, r) in enumerate(pairs)
+                  if r["q"] == "fext" and fr(r["inc"]) == 1]
     if not pairs:
         rep.machinery("no lattice requests for " + str(qs))
         return rep.finish()
